@@ -64,7 +64,8 @@ REQUIRED_PROBES = ["body_exception_compress", "body_exception_decompress",
                    "fault_in_copy_read", "fault_in_copy_write",
                    "corrupt_archive_truncated", "corrupt_archive_flipped",
                    "fault_at_tempfile_creation", "preexisting_target",
-                   "content_larger_than_chunk", "short_read"]
+                   "content_larger_than_chunk", "short_read",
+                   "two_blocks_open_at_once", "target_prefilled_longer"]
 
 _T = {}
 FORMATS = ["gz", "bz2", "zip", "xz"]
@@ -316,6 +317,8 @@ def gen_workload(tape):
         kind = tape.pick(["compress", "decompress"], "kind") if archives else "compress"
         if kind == "decompress" and tape.flag("fresh_archive", 1, 2):
             kind = "decompress_fresh"
+        if tape.flag("pair", 1, 7):
+            kind = "decompress_pair"     # two decompress blocks open at once
         blk["kind"] = kind
         if kind == "compress":
             real = not tape.flag("plain", 1, 6)
@@ -344,14 +347,26 @@ def gen_workload(tape):
         else:
             if kind == "decompress":
                 blk["of"] = tape.pick(archives, "of")
-            else:
+            elif kind == "decompress_fresh":
                 fmt = tape.pick(FORMATS, "fmt")
                 blk["fmt"] = fmt
                 blk["name"] = tape.pick(NAMES, "name") + "." + fmt
                 ck, content = gen_content(tape)
                 blk["content_kind"], blk["content"] = ck, content.hex()
+            if kind == "decompress_pair":
+                # two archives with the same base name in two directories
+                blk["name"] = tape.pick(NAMES, "pname")
+                blk["fmt"] = tape.pick(FORMATS, "pfmt1")
+                blk["fmt2"] = tape.pick(FORMATS, "pfmt2")
+                _, c1 = gen_content(tape)
+                _, c2 = gen_content(tape)
+                blk["content"], blk["content2"] = c1.hex(), (c2 + b"#2").hex()
+                blk["nested"] = tape.flag("nested", 2, 3)
             blk["tmpdir"] = tape.flag("tmpdir", 1, 3)
             blk["target"] = tape.flag("target", 1, 4)
+            # a file already sitting at the explicit target (it "will be
+            # overwritten"), longer than the decompressed content
+            blk["target_prefilled"] = blk["target"] and tape.flag("prefill", 1, 2)
         blocks.append(blk)
     w["blocks"] = blocks
     return w
@@ -548,6 +563,9 @@ class Exec:
                 self.nontrivial = True
             return False
         # ---------------------------------------------------------- decompress
+        if kind == "decompress_pair":
+            return self.block_pair(bi, blk, data, tmp_default, tmp_explicit, tmpdir,
+                                   body_fault)
         if kind == "decompress":
             if blk["of"] not in self.archive_blocks:
                 return False
@@ -579,6 +597,10 @@ class Exec:
                 f.write(raw)
             self.nontrivial = True
         target = os.path.join(data, f"target{bi}.out") if blk.get("target") else None
+        if target and blk.get("target_prefilled"):
+            with open(target, "wb") as f:
+                f.write(b"OLD CONTENT OF THE TARGET FILE " * 40)
+            self.probe("target_prefilled_longer")
         self.body_points.append((bi, 2))
         exc = None
         got = None
@@ -601,7 +623,16 @@ class Exec:
             with open(path, "wb") as f:
                 f.write(pristine)
         self.log.append(f"b{bi} decompress {os.path.basename(path)} -> {type(exc).__name__}")
-        self._check_debris(bi, tmp_default, tmp_explicit, copy_path or target)
+        leftover = copy_path or target
+        if target and blk.get("target_prefilled") and copy_path is None \
+                and os.path.exists(target):
+            # decompress never got as far as handing out the copy: if the
+            # caller's old file is still there untouched, that is no debris
+            with open(target, "rb") as f:
+                if f.read() == b"OLD CONTENT OF THE TARGET FILE " * 40:
+                    os.remove(target)
+                    leftover = None
+        self._check_debris(bi, tmp_default, tmp_explicit, leftover)
         if body_fault is not None:
             self.probe("body_exception_decompress")
             self.nontrivial = True
@@ -630,6 +661,74 @@ class Exec:
                                 f"expected {len(content)}"))
         if content:
             self.nontrivial = True
+        return False
+
+    def block_pair(self, bi, blk, data, tmp_default, tmp_explicit, tmpdir, body_fault):
+        """Two decompress blocks open at the same time (nested, or interleaved
+        by hand) on archives with the same base name in different directories."""
+        umod = _T["umod"]
+        name = blk["name"]
+        specs = []
+        for k, (fmt, key) in enumerate(((blk["fmt"], "content"), (blk["fmt2"], "content2"))):
+            d = os.path.join(data, f"pair{bi}_{k}")
+            os.makedirs(d, exist_ok=True)
+            path = os.path.join(d, f"{name}.{fmt}")
+            content = bytes.fromhex(blk[key])
+            with open(path, "wb") as f:
+                f.write(_std_compress(fmt, name, content))
+            self.allowed.add(path)
+            specs.append((path, fmt, content))
+        self.probe("two_blocks_open_at_once")
+        self.nontrivial = True
+        got = [None, None]
+        exc = None
+        fired_before = self.plane.fired
+        try:
+            if blk["nested"]:
+                with umod.decompress(specs[0][0], tmpdir=tmpdir) as d0:
+                    with umod.decompress(specs[1][0], tmpdir=tmpdir) as d1:
+                        with open(d1, "rb") as f:
+                            got[1] = f.read()
+                    with open(d0, "rb") as f:        # after the inner block is gone
+                        got[0] = f.read()
+            else:
+                import contextlib
+                st0, st1 = contextlib.ExitStack(), contextlib.ExitStack()
+                try:
+                    d0 = st0.enter_context(umod.decompress(specs[0][0], tmpdir=tmpdir))
+                    d1 = st1.enter_context(umod.decompress(specs[1][0], tmpdir=tmpdir))
+                    with open(d0, "rb") as f:
+                        got[0] = f.read()
+                    with open(d1, "rb") as f:
+                        got[1] = f.read()
+                    st0.close()                   # the block opened first leaves first
+                    with open(d1, "rb") as f:     # the other copy must still be there
+                        again = f.read()
+                    if again != got[1]:
+                        got[1] = again
+                finally:
+                    try:
+                        st0.close()
+                    finally:
+                        st1.close()
+        except Exception as e:  # noqa
+            exc = e
+        io_fault_here = self.plane.fired is not None and self.plane.fired is not fired_before
+        self.log.append(f"b{bi} pair {name} -> {type(exc).__name__}")
+        self._check_debris(bi, tmp_default, tmp_explicit, None)
+        if io_fault_here:
+            return exc is not None
+        if exc is not None:
+            self.V.append(_viol("C12/decompress/two-open-blocks/exception",
+                                f"block {bi}: {type(exc).__name__}: {exc}"[:300]))
+            return True
+        for k in (0, 1):
+            if got[k] != specs[k][2]:
+                self.V.append(_viol(
+                    "C12/decompress/two-open-blocks/content",
+                    f"block {bi}: archive {k} ({os.path.basename(specs[k][0])}) gave "
+                    f"{len(got[k] or b'')} bytes, expected {len(specs[k][2])}"))
+                break
         return False
 
     def _check_archive(self, bi, blk, path, fmt, member, content):
